@@ -43,9 +43,9 @@ CHECKS = {
             SIM + ": swap-path oracle from emitted SwapExecuted events and per-market recorded-balance ledger over markets forming paths; invalid paths submitted by owners must be rejected at creation",
             "Swap orders with valid (1–3 hops) and invalid (duplicates, single-token markets, wrong first/last token, up to 10 hops) paths; executed hops must equal the declared markets in order with chained amounts, end in the declared token, and move each market's recorded balances by exactly the hop amounts.",
             "hop-level oracle on swap orders; deposits/withdrawals/position orders with paths are checked for creation-time rejection and solvency only", "§5 C44"),
-    "C21": ("fault_enumeration", "chainsim/scn-exchange",
+    "C21": ("fault_enumeration", "unitsim+chainsim/scn-exchange",
             SIM + ": every soft-failed (abandoned) execution is followed by a fork comparison: world with the abandoned operation vs world without it under the same next operation",
-            "Chain part: for each soft-failed execution the market state must be untouched and the next successful operation must produce identical market state in both worlds. The unit-level fault enumeration over the revertible buffer is a separate part (unitsim) once merged.",
+            "Unit part (buffersim, through a cfg-guarded hook): begin/read/write/commit/abandon sequences over all pool kinds, clocks and other state of a real zero-copy Market against a copy-on-write reference; every operation is additionally abandoned after each prefix and a fresh operation must read pure storage (exhaustive over abandonment points of the generated operations). Chain part: for each soft-failed execution the market state must be untouched and the next successful operation must produce identical market state in the world with and the world without the abandoned attempt.",
             "depends on soft failures being reached (reach probe soft_failed_execution)", "§5 C21"),
     "C02": ("exploration", "marketsim",
             SIM + ": every fee-bearing report of simulated market histories (deposits, withdrawals, swaps, orders, liquidations) is split-checked against a BigInt reference; misconfiguration faults (> 100 % factors) must fail",
@@ -95,10 +95,22 @@ CHECKS = {
             SIM + ": trade-callback histories from 2-12 traders delivered to the real competition program (callback-authority PDA flagged as signer, trade-event account written by the simulator) under stalled / jumping clocks, duplicate deliveries and byzantine callers; exact top-5 / extension model; a second part drives real store orders with the competition as callback and cross-checks the forged inputs",
             "After every delivered callback the leaderboard has at most five distinct traders in non-increasing order with their latest totals, every participant left off a full board has no more volume than the last entry, and the end time never moves earlier nor past max(old end, now + cap). Part 2 executes real orders through the store with the competition as callback and requires byte-identical competition state between the real CPI and the forged delivery.",
             "the main part forges the store's CPI (declared stub); the clock is monotone as on Solana (a violation needing a backward clock step was classified as a false alarm of the fault model and the regression removed)", "§5 C39"),
+    "C15": ("exploration", "unitsim",
+            SIM + " (single-object history): signed-delta and cancel histories on the store's pure Pool and the SDK Pool against a one-number model, totals up to u128::MAX",
+            "Operation histories of 20-8000 steps (long / short deltas, two-sided deltas, cancel) on a pure pool obtained from a real Market::init, run on the program's Pool and the SDK Pool side by side against a single u128 total; long+short == total, ceil/floor split, a delta of d changes the total by exactly d or fails unchanged, cancel leaves the parity remainder. An impure pool runs the same history as a control. No fault other than overflow: this is the sequential reference-model part of the technique.",
+            "no clock, party or fault is involved beyond long use and overflow", "§5 C15"),
+    "C34": ("exploration", "unitsim",
+            SIM + " (single-object history): insert/replace/remove/get/clear histories with key universes of twice the capacity on every fixed-capacity map type used by the programs, against BTreeMap; capacity exhaustion as the fault; panics caught and attributed",
+            "18 map variants (8 real public types of store and treasury, 6 SDK mirrors, 4 own instantiations of the same macro) are filled beyond capacity, hammered while full, drained and cleared; results, contents (raw bytemuck image), sortedness and zeroed tail equal the reference; a new key into a full map must fail and change nothing; any panic is a violation. Known finding: the plain `insert` panics on a full map.",
+            "no clock or party; capacity exhaustion is the only fault", "§5 C34"),
+    "C27": ("exploration", "unitsim",
+            SIM + ": a stored feed price lives through a simulated timeline (reports with status / last-update tracking, policy-flag and timeout changes, clock stalls and jumps to the 64-bit extremes); is_market_open is compared with the statement's predicate evaluated in i128 at every step",
+            "Unit part: timelines of 20-12000 steps incl. jumps to i64::MIN / i64::MAX and the freshness edges; openness and is_market_open must equal the reference predicate (status not closed under the feed's policy flags, open flag set, and with last-update tracking both the report and the last update no older than the timeout). The on-chain path (reports through the store's feeds and oracle) is the scn-oracle part.",
+            "the extreme-timestamp clause is unreachable through u32 report timestamps on chain, hence the unit-level timeline", "§5 C27"),
     "C09": ("exploration", "chainsim/scn-exchange",
             SIM + ": liquidation attempts by the keeper on live positions after price moves; a successful liquidation must close the whole position",
-            "Chain part only: liquidations reached in exchange histories always remove the whole position. Health predicates (validate / check_liquidatable) and ADL are not yet covered here.",
-            "partial coverage of the statement (third clause, ADL, not yet built)", "§5 C09"),
+            "Chain part: after every executed increase or non-removing decrease the position must not be liquidatable at the execution prices, and every successful liquidation must have been liquidatable under the liquidation thresholds on the pre-state and must remove the whole position. The reference evaluates check_liquidatable on the SDK's PositionModel of the same account bytes after bringing the fee state up to date with the program's update_fees_state on a fork.",
+            "ADL (third clause) is not covered yet; the reference shares the formula of check_liquidatable with the code under test (different call site)", "§5 C09"),
 }
 
 NA = {
